@@ -1923,7 +1923,7 @@ class ApplyResult:
             if self._accept_callback:
                 try:
                     self._accept_callback(pid, time_accepted)
-                except self._propagate_errors:
+                except self._callbacks_propagate:
                     response = NACK
                     raise
                 except Exception:
